@@ -259,6 +259,78 @@ FIND_INNER = """invariant_except_break
                         (#[trigger] scope.children@[j] matches ScopeOrDeclId::Scope(sid) ==> !rng(self.scopes@, sid.id as int, position.raw as int)),
                 decreases __fs@.len() - __fk"""
 
+# ---- the property-level contracts ------------------------------------------------------------------------------------------------------
+SS = 'self.scopes@'
+P = 'position.raw as int'
+FOUND = ('(r matches Some(d) ==> exists|id: LuaDeclId| self.decls@.contains_key(id) && d == &self.decls@[id] && dname(d) == name@ '
+         '&& visible(self.scopes@, id, position.raw as int, true))')
+FIND_ENSURES = """self.scopes@.len() == 0 ==> r is None,
+            // Some(d): d is a declaration of the tree with that name that Lua's scoping makes visible at the position
+            (tree_wf(self.scopes@) && !in_header(self.scopes@, position.raw as int)) ==> %(found)s /*@C13.lookup.returns-the-visible-declaration*/,
+            // None: no declaration with that name is visible there (the caller falls back to the global)
+            tree_wf(self.scopes@) ==> (r is None ==> forall|id: LuaDeclId| self.decls@.contains_key(id) && #[trigger] visible(self.scopes@, id, position.raw as int, true)
+                ==> dname(&self.decls@[id]) != name@) /*@C13.lookup.none-iff-no-visible-local*/""" % {'found': FOUND}
+FIND_PROOF = """proof {
+            let ss = self.scopes@; let l = scope.id.id as int; let p = position.raw as int;
+            let t = m_visit(ss, l, p, true);
+            lemma_find_run(self, name@, None, t);
+            let r0 = run::<FindVisitor>((self, name@, None::<&LuaDecl>), t);
+            assert(__v.state() == r0.0);
+            if tree_wf(ss) {
+                lemma_trace_is_visible(ss, l, p);
+                assert forall|id: LuaDeclId| true implies (visible(ss, id, p, true) ==> #[trigger] visible(ss, id, p, false))
+                    && (!in_header(ss, p) ==> (visible(ss, id, p, false) ==> visible(ss, id, p, true))) by { lemma_lua_vs_code(ss, id, p); }
+                if r0.1 {
+                    // stopped: at the first element that is a declaration of the tree with that name; it is in the trace, hence visible
+                    let j = choose|j: int| 0 <= j < t.len() && find_hit(self, name@, t[j]) && r0.0.2 == Some(&self.decls@[t[j]->Decl_0])
+                        && forall|j2: int| 0 <= j2 < j ==> !find_hit(self, name@, t[j2]);
+                    assert(t.contains(t[j]));
+                    assert(visible(ss, t[j]->Decl_0, p, false));
+                } else {
+                    // not stopped: a visible declaration with that name would be in the trace and would have stopped the visitor
+                    assert forall|id: LuaDeclId| self.decls@.contains_key(id) && #[trigger] visible(ss, id, p, true) implies dname(&self.decls@[id]) != name@ by {
+                        assert(visible(ss, id, p, false));
+                        assert(t.contains(ScopeOrDeclId::Decl(id)));
+                        let j = choose|j: int| 0 <= j < t.len() && t[j] == ScopeOrDeclId::Decl(id);
+                        if dname(&self.decls@[id]) == name@ { assert(find_hit(self, name@, t[j])); }
+                    }
+                }
+            }
+        }"""
+ENV_ENSURES = """self.scopes@.len() == 0 ==> r is None,
+            self.scopes@.len() > 0 ==> r is Some,
+            // exactly the declarations visible at the position (but the implicit `self`)
+            (tree_wf(self.scopes@) && decls_wf(self) && !in_header(self.scopes@, position.raw as int)) ==> (r matches Some(v) && forall|id: LuaDeclId|
+                #[trigger] v@.contains(id) <==> (visible(self.scopes@, id, position.raw as int, true) && !dself(&self.decls@[id]))) /*@C13.env.exactly-visible*/"""
+ENV_PROOF = """proof {
+            let ss = self.scopes@; let l = scope.id.id as int; let p = position.raw as int;
+            let t = m_visit(ss, l, p, true);
+            lemma_env_run(self, Seq::empty(), t);
+            assert(Seq::<LuaDeclId>::empty() + env_list(self, t) =~= env_list(self, t));
+            if tree_wf(ss) && decls_wf(self) {
+                lemma_trace_is_visible(ss, l, p);
+                assert forall|id: LuaDeclId| #[trigger] result@.contains(id) <==> (visible(ss, id, p, false) && !dself(&self.decls@[id])) by {
+                    lemma_env_list_char(self, t, id);
+                    if visible(ss, id, p, false) && !dself(&self.decls@[id]) {
+                        let (s, k) = choose|s: int, k: int| 0 <= s < ss.len() && is_decl_child(ss, s, k, id) && region(ss, s, id, p, false);
+                        assert(t.contains(ScopeOrDeclId::Decl(id)));
+                        let j = choose|j: int| 0 <= j < t.len() && t[j] == ScopeOrDeclId::Decl(id);
+                        assert(env_hit(self, t[j]) && did(&self.decls@[t[j]->Decl_0]) == id);
+                    }
+                    if result@.contains(id) {
+                        let j = choose|j: int| 0 <= j < t.len() && env_hit(self, t[j]) && did(&self.decls@[t[j]->Decl_0]) == id;
+                        assert(t.contains(t[j]));
+                        let id2 = t[j]->Decl_0;
+                        assert(visible(ss, id2, p, false));
+                        let (s, k) = choose|s: int, k: int| 0 <= s < ss.len() && is_decl_child(ss, s, k, id2) && region(ss, s, id2, p, false);
+                        assert(id2 == id);
+                    }
+                }
+                assert forall|id: LuaDeclId| true implies (visible(ss, id, p, true) ==> #[trigger] visible(ss, id, p, false))
+                    && (!in_header(ss, p) ==> (visible(ss, id, p, false) ==> visible(ss, id, p, true))) by { lemma_lua_vs_code(ss, id, p); }
+            }
+        }"""
+
 
 def fn(name, impl='LuaDeclarationTree', file=TREE, **kw):
     d = {'src': {'file': file, 'kind': 'fn', 'impl': impl, 'name': name}}
@@ -363,13 +435,17 @@ UNIT = {
             rules=[('c13-closure-visitor', {'ctor': 'FindVisitor { this: self, name, result }', 'writeback': 'result = __v.result',
                                             'body_from': r'match decl_id \{', 'body_to': r'\n {12}false'})],
             requires=WF + ', keys_ok()',
-            ensures="""self.scopes@.len() == 0 ==> r is None"""),
+            ensures=FIND_ENSURES,
+            body_first='proof { if tree_wf(self.scopes@) { wf_basic(self.scopes@); } }',
+            proof=[(r'result = __v\.result;', 'after', FIND_PROOF)]),
         'LuaDeclarationTree::get_env_decls': fn(
             'get_env_decls', ret='r',
             rules=[('c13-closure-visitor', {'ctor': 'EnvVisitor { this: self, result }', 'writeback': 'result = __v.result',
                                             'body_from': r'match decl_id \{', 'body_to': r'\n {12}false'})],
             requires=WF + ', keys_ok()',
-            ensures="""self.scopes@.len() == 0 ==> r is None"""),
+            ensures=ENV_ENSURES,
+            body_first='proof { if tree_wf(self.scopes@) { wf_basic(self.scopes@); } }',
+            proof=[(r'result = __v\.result;', 'after', ENV_PROOF)]),
     },
     'allow': [r'external_body', r'uninterp'],
     'min_obligations': 10,
